@@ -1,5 +1,5 @@
 """C06 — no reader ever observes part of a batch."""
-from gen import lib, sched
+from gen import lib, sched, dbh
 
 PROP_FILE = "props/C06.v"
 FAMILIES = {"writer", "group"}
@@ -12,7 +12,9 @@ RULE = ("sched (Tier A pause-point schedules): one thread is parked at a schedul
         "value in some linearization of whole writes consistent with real time (a write that ended "
         "before the read started is visible unless superseded; nothing from a write that started "
         "after the read ended); scans and snapshot reads must be explained by one cut. Non-trivial: a "
-        "schedule in which the armed thread actually parked; distinct by sha1.")
+        "schedule in which the armed thread actually parked; distinct by sha1. dbhist: multi-operation "
+        "batches followed by close + reopen (log replay publishes sequence numbers too), then scans, "
+        "gets and snapshot reads compared with the map specification.")
 TRUSTED = ["scheduling hooks (cfg raindb_verif) at the places where the database mutex is released; interleavings below that granularity (atomics, ArcSwap, skiplist internals) are assumed sequentially consistent"]
 ASSUMPTIONS = ["at most one parked thread plus queued writers per schedule (Tier A)"]
 
@@ -27,23 +29,58 @@ def corpus():
     return res
 
 
+def gen_batch_reopen(tier, rng):
+    """multi-operation batches as the last thing in the write-ahead log before a close + reopen
+    (log replay is the other place that publishes sequence numbers): scans, gets and snapshot reads
+    after the reopen must see every batch whole"""
+    cases = []
+    n = 16 if tier == "quick" else 800
+    for i in range(n):
+        nkeys = rng.choice([4, 8])
+        toks = ["b%d" % i, "%d:%d:%d:%d" % (rng.choice([1 << 20, 4096, 512]), rng.choice([1 << 20, 1024]), rng.choice([64, 4096]), rng.randrange(2))]
+        for _ in range(rng.randrange(1, 5)):
+            for _ in range(rng.randrange(0, 4)):
+                toks.append("P%s=%s" % (dbh.rkey(rng, nkeys), dbh.rval(rng, 300)))
+            els = []
+            for _ in range(rng.randrange(2, 7)):
+                els.append("%s=%s" % (dbh.rkey(rng, nkeys), dbh.rval(rng, 200)) if rng.random() < 0.75 else dbh.rkey(rng, nkeys))
+            toks.append("B" + ";".join(els))
+            toks.append("O%d:%d:%d:%d" % (rng.choice([1 << 20, 4096]), rng.choice([1 << 20, 1024]), rng.choice([64, 4096]), rng.randrange(2)))
+            toks.append("A")
+            toks.append("S")
+            for k in range(nkeys):
+                toks.append("G" + dbh.KEYS[k])
+        toks.append("A")
+        cases.append(" ".join(toks))
+    return cases
+
+
 def suites(tier, seed, rng):
-    return [sched.SchedSuite(corpus() + sched.gen_cases(tier, rng, FAMILIES))]
+    return [sched.SchedSuite(corpus() + sched.gen_cases(tier, rng, FAMILIES)),
+            dbh.DbSuite(gen_batch_reopen(tier, rng))]
 
 
 def replay_suites(rp):
+    if rp.get("suite") == "dbhist":
+        return [dbh.DbSuite([rp["case"]])]
     return [sched.SchedSuite([rp["case"]])]
 
 
 def still_fails(suite, case, workdir):
+    if suite == "dbhist":
+        return dbh.still_fails(case, workdir)
     return sched.still_fails(case, workdir)
 
 
 def nontrivial(suite, case):
+    if suite == "dbhist":
+        return " B" in case
     return " A" in case and " T" in case
 
 
 def classify(suite, case):
     import re
+    if suite == "dbhist":
+        return "dbhist:batch-then-reopen"
     m = re.search(r" A\w+:([\w:]+)", case)
     return "sched:" + (m.group(1) if m else "none")
